@@ -429,12 +429,12 @@ def catchPanicErr : Thrown → Option (Bool × String)
   | .obj t => some (false, t)
   | .errClass t => some (false, t)
 
-/-- file/file.go `(*FileSet).Position(idx)`: the first file with `idx <= base + len(src)`; it hands `idx - base` to
-    `(*File).Position`, which subtracts the base once more.  `files` = (base, src) in the order of `AddFile`. -/
+/-- file/file.go `(*FileSet).Position(idx)`: the first file with `idx <= base + len(src)`; idx goes on to
+    `(*File).Position` unchanged (which subtracts the file's base).  `files` = (base, src) in the order of `AddFile`. -/
 def fileSetPosition : List (Int × Src) → Int → Option (Nat × Nat)
   | [], _ => none
   | (base, src) :: r, idx =>
-    if idx ≤ base + src.length then filePosition src base (idx - base) else fileSetPosition r idx
+    if idx ≤ base + src.length then filePosition src base idx else fileSetPosition r idx
 
 /-- `(*FileSet).AddFile`: the bases of consecutive files (`nextBase` = last.base + len(last.src) + 1, first = 1) -/
 def addFiles : Int → List Src → List (Int × Src)
